@@ -275,6 +275,76 @@ def multi_clause(run, rng, tier, horizons):
                           dict(replay, trace=[list(x) for x in tr], telingo_fired=fired, reference=expect))
 
 
+def _polarity_job(args):
+    cond_text, horizons = args
+    out = {}
+    for pol in ('prohibited', 'required'):
+        text = f'It is {pol} that {cond_text}.'
+        r = rt.compile_cnl(DECL + text)
+        if r[0] != 'ok':
+            out[pol] = {'rejected': str(r[1])[:200], 'cnl': text}
+            continue
+        rules = [l for l in r[1].split('\n') if l.startswith(':-')]
+        if len(rules) != 1:
+            out[pol] = {'err': 'no single constraint', 'program': r[1], 'cnl': text}
+            continue
+        adm = {}
+        err = None
+        for h in horizons:
+            prog = '#program always.\n{alpha(1)}. {beta(1)}.\n' + rules[0] + '\n#show alpha/1. #show beta/1.\n'
+            t = tel.run_telingo(prog, h)
+            if t[0] != 'ok':
+                err = t[1]
+                break
+            adm[h] = sorted({tuple((('alpha(1)' in st), ('beta(1)' in st)) for st in model) for model in t[1]})
+        out[pol] = {'rule': rules[0], 'cnl': text, 'admitted': adm} if err is None else {'rule': rules[0], 'cnl': text, 'err': err}
+    return out
+
+
+def polarity(run, rng, tier, conds, comp, tres, horizons):
+    """the same conditions under `It is prohibited that …` / `It is required that …`: the constraint admits exactly the traces on
+    which the condition holds at no state / at every state — judged against where the `Whenever …` rule of the same condition fires
+    (itself judged against the reference reading above)"""
+    picks = []
+    for ci, ((t, p, kind), c) in enumerate(zip(conds, comp)):
+        tr_ = tres.get(ci)
+        if kind != 'grid' or p or all_pfx(t) or tr_ is None or 'ok' not in tr_ or t.get('rest'):
+            continue
+        picks.append(ci)
+    rng2 = random.Random(rng.random())
+    rng2.shuffle(picks)
+    picks = sorted(picks[: (36 if tier == 'quick' else 400)])
+    hz = [h for h in horizons if h <= 2]
+    results = rt.pmap(_polarity_job, [(r_top(conds[ci][0]), hz) for ci in picks], chunksize=1)
+    n = 0
+    for ci, res in zip(picks, results):
+        fired_tab = tres[ci]['ok']
+        key_shape = shape_key(conds[ci][0])
+        for pol, r in res.items():
+            run.count(('polarity', pol, r.get('cnl')))
+            replay = {'cnl': DECL + r.get('cnl', ''), 'rule': r.get('rule')}
+            if 'rejected' in r:
+                run.violation(f'reject/{pol}/{key_shape}', f'the condition is accepted after Whenever but rejected after "It is {pol} that": {r["rejected"][:150]}', replay)
+                continue
+            if 'err' in r:
+                run.violation(f'telingo-error/{pol}/{key_shape}', f'telingo failed on {r.get("rule")!r}: {str(r["err"])[:200]}', replay)
+                continue
+            n += 1
+            for h in hz:
+                table = fired_tab[h] if h in fired_tab else fired_tab[str(h)]
+                want = sorted(tr for tr, fired in table.items() if (not any(fired) if pol == 'prohibited' else all(fired)))
+                got = [tuple(tuple(st) for st in tr) for tr in r['admitted'][h]]
+                run.coverage['evaluations'] += len(table)
+                if got != want:
+                    odd = sorted(set(got) ^ set(want))[0]
+                    run.violation(f'meaning/{pol}/{key_shape}',
+                                  f'{r["cnl"]!r} compiles to {r["rule"]!r}, which {"admits" if odd in got else "rejects"} the trace '
+                                  f'{[list(x) for x in odd]} although the condition holds at states '
+                                  f'{[i for i, x in enumerate(table[odd]) if x]}', dict(replay, trace=[list(x) for x in odd]))
+                    break
+    run.coverage['polarity_constraints_run'] = n
+
+
 def main(tier):
     run = common.Run(PROP, tier)
     rng = random.Random(run.seed)
@@ -426,6 +496,7 @@ def main(tier):
                 continue
             break
     multi_clause(run, rng, tier, horizons)
+    polarity(run, rng, tier, conds, comp, tres, horizons)
     run.coverage['conditions'] = stats
     run.coverage['exhaustive'] = True
     for (t, p, kind), c in list(zip(conds, comp))[:3] + list(zip(conds, comp))[-2:]:
